@@ -23,6 +23,9 @@ SIZES = {'small': 2700, 'large': 2 ** 20 + 4096,    # large: more than one read 
          'empty': 0}                                  # the published file is empty (and so is a valid copy)
 
 
+ENTRY = {'kind': 'download_file'}      # or 'download_test_file' (forced): the same call behind a wrapper
+
+
 def set_bodies(size='small'):
     """The served bodies: a few kB, or just above 1 MiB (files are hashed in blocks)."""
     global GOOD, BAD, OTHER, MD5_GOOD
@@ -100,9 +103,15 @@ def run_download(prior, sum_mode, choices, data_script=None):
 
     import io
     import contextlib
+    url = URL
+    if ENTRY['kind'] == 'download_test_file':
+        import phylib.io.datasets as dsm
+        url = dsm._BASE_URL + 'file.bin'
     with core.Scratch() as d:
         path = d / 'out' / 'file.bin'
-        path.parent.mkdir()
+        if ENTRY['kind'] == 'download_test_file':
+            path = d / 'cfg' / 'test_data' / 'file.bin'
+        path.parent.mkdir(parents=True)
         if prior == 'good':
             path.write_bytes(GOOD)
         elif prior == 'corrupt':
@@ -110,13 +119,17 @@ def run_download(prior, sum_mode, choices, data_script=None):
         out = {'outcome': None, 'exc': None}
         with responses.RequestsMock(assert_all_requests_are_fired=False) as rsps, \
                 contextlib.redirect_stdout(io.StringIO()):
-            rsps.add_callback(responses.GET, URL, callback=data_cb)
-            rsps.add_callback(responses.GET, URL + '.md5', callback=sum_cb)
-            rsps.add_callback(responses.HEAD, URL, callback=head_cb)
+            rsps.add_callback(responses.GET, url, callback=data_cb)
+            rsps.add_callback(responses.GET, url + '.md5', callback=sum_cb)
+            rsps.add_callback(responses.HEAD, url, callback=head_cb)
             try:
                 with core.time_limit(5):
-                    # the target given as a Path, or (large-body sweep) as a string
-                    download_file(URL, str(path) if len(GOOD) > 10000 else path)
+                    if ENTRY['kind'] == 'download_test_file':
+                        from phylib.io.datasets import download_test_file
+                        download_test_file('file.bin', config_dir=d / 'cfg', force=True)
+                    else:
+                        # the target given as a Path, or (large-body sweep) as a string
+                        download_file(URL, str(path) if len(GOOD) > 10000 else path)
                 out['outcome'] = 'returned'
             except core.CaseTimeout:
                 out['outcome'] = 'raised_other:no-termination'
@@ -196,6 +209,7 @@ def scenario_key(prior, sum_mode, out):
 def run_direct(case, acc, order):
     prior, mode = case['prior'], case['sum']
     set_bodies(case.get('body', 'small'))
+    ENTRY['kind'] = case.get('entry', 'download_file')
     first = case.get('schedule')
 
     def run(ch):
@@ -245,6 +259,7 @@ def run_direct(case, acc, order):
                     observed=out2), 0)
     case['_seen'] = [(scenario_key(prior, mode, o), sc) for sc, o in seen]
     set_bodies('small')
+    ENTRY['kind'] = 'download_file'
     acc.extra['scenarios:%s:%s' % (prior, mode)] = len(set(k for k, _ in case['_seen']))
     if mode != 'per-request':
         acc.sample({'prior': prior, 'checksum': mode,
@@ -332,9 +347,12 @@ def explore(ctx):
     # direct exploration
     seen_const = {}
     for mode_set, name in ((SUMS, 'direct-constant'), (['per-request'], 'direct-per-request'),
-                           (SUMS, 'direct-constant-large'), (SUMS, 'direct-constant-empty')):
+                           (SUMS, 'direct-constant-large'), (SUMS, 'direct-constant-empty'),
+                           (SUMS, 'direct-constant-testfile')):
         cases = [dict({'prior': p, 'sum': s}, **({'body': name.split('-')[-1]}
-                                                  if name.split('-')[-1] in SIZES else {}))
+                                                  if name.split('-')[-1] in SIZES else
+                                                  ({'entry': 'download_test_file'}
+                                                   if name.endswith('testfile') else {})))
                  for p in PRIOR for s in mode_set]
         # run in-process (small) so that the explored scenario sets can be collected
         sub = core.Acc()
